@@ -381,9 +381,12 @@ def main(argv=None):
                     extra = {'counterexample': None, 'counterexample_search': 'failed: %r' % (e,)}
             else:
                 extra = {'counterexample': None, 'counterexample_search': 'skipped: more than 12 violations in this run'}
-            if extra and extra.get('spurious_bounded'):
-                # a clause on a real function is rejected, but neither Kani nor the exhaustive native sweeps of its scenario
-                # family find a failing input on the real code: a proof that no longer goes through, not an observed violation
+            if extra and extra.get('spurious_bounded') and f.message.startswith('postcondition not satisfied'):
+                # a *functional* clause on a real function is rejected, but neither Kani nor the exhaustive native sweeps of
+                # its scenario family find a failing input on the real code: a proof that no longer goes through, not an
+                # observed violation. Safety obligations (overflow, shift range, reachable panic, call-site preconditions)
+                # are NOT downgraded: an operation that can overflow unless some unproved invariant holds is exactly what
+                # C08 is about, and deep histories are beyond any bounded search.
                 undecided_reasons.append('verifier rejects %s (%s) but Kani and the exhaustive native sweeps [%s] find no failing input on the real code: proof incomplete after the change, reported undecided' % (
                     f.oid, f.message, extra.get('sweeps_held', '')))
                 continue
